@@ -390,6 +390,29 @@ func enumPathsOpts(fn *ssa.Function, limit, maxVisits int, opts InlineOpts) (pat
 			case *ssa.DebugRef:
 			case *ssa.Store:
 				k, v := s.term(x.Addr), s.term(x.Val)
+				if fa, ok := x.Addr.(*ssa.FieldAddr); ok && isGroupField(fa.X.Type(), fa.Field) {
+					// a grouping field is transparent: its copy is a copy of each reference field it holds
+					st, _ := x.Val.Type().Underlying().(*types.Struct)
+					fresh := false // a local never stored as a whole: fields not stored on this path are zero
+					if ld, ok := x.Val.(*ssa.UnOp); ok && ld.Op == token.MUL {
+						if a, ok := ld.X.(*ssa.Alloc); ok {
+							_, whole := s.mem.get(s.term(a))
+							fresh = !whole
+						}
+					}
+					for j := 0; st != nil && j < st.NumFields(); j++ {
+						fn := "." + fieldName(x.Val.Type(), j)
+						if fv, ok := s.mem.get(v + fn); ok {
+							s.mem.set(k+fn, fv)
+						} else if fresh {
+							s.mem.set(k+fn, zeroTerm(st.Field(j).Type()))
+						} else {
+							s.mem.set(k+fn, v+fn)
+						}
+						s.path.Events = append(s.path.Events, Event{"store", k + fn + " := " + func() string { m, _ := s.mem.get(k + fn); return m }(), ins})
+					}
+					continue
+				}
 				s.mem.set(k, v)
 				// a struct copied as a whole carries what is known about its fields
 				if _, isStruct := x.Val.Type().Underlying().(*types.Struct); isStruct && strings.HasPrefix(v, "local:") && k != v {
@@ -520,6 +543,9 @@ func enumPathsOpts(fn *ssa.Function, limit, maxVisits int, opts InlineOpts) (pat
 					nm += fmt.Sprintf("@%d", fr.serial)
 				}
 				s.vals.set(x, nm)
+				if _, isStruct := x.Type().(*types.Pointer).Elem().Underlying().(*types.Struct); isStruct {
+					s.mem.set(nm+"#type", typeStr(x.Type())) // what kind of object the term stands for
+				}
 			case *ssa.Return:
 				var rets []string
 				for _, r := range x.Results {
@@ -1121,4 +1147,22 @@ func spellCond(c string) string {
 		return body
 	}
 	return "!" + body
+}
+
+// zeroTerm prints the zero value of t the way constants are described.
+func zeroTerm(t types.Type) string {
+	switch u := t.Underlying().(type) {
+	case *types.Basic:
+		switch {
+		case u.Info()&types.IsBoolean != 0:
+			return "false"
+		case u.Info()&types.IsString != 0:
+			return `""`
+		case u.Info()&types.IsNumeric != 0:
+			return "0"
+		}
+	case *types.Struct, *types.Array:
+		return "zero:" + typeStr(t)
+	}
+	return "nil"
 }
